@@ -135,6 +135,12 @@ func checkRingWrappers(c *Ctx, prog *load.Program, s ringSpec, methods []string,
 	n3, n10 := 0, 0
 	for _, m := range methods {
 		name := Method(s.ringType, m)
+		if !token.IsExported(m) && absint.FindFunc(prog.SSA, name) == nil {
+			// an unexported helper of the reference tree that this tree does not have (renamed, inlined, re-shaped): its
+			// specification is then used by nobody, and the exported methods are validated with whatever they call inlined
+			c.R.OK(r3, "model/"+strings.TrimPrefix(strings.TrimPrefix(name, "(*"+models.Mod), models.Mod), "", "unexported helper not present in this tree; its callers are validated with their callees inlined")
+			continue
+		}
 		if validateModel(c, r3, prog, lower, upper, name, nil, nil, nil, "") {
 		}
 		n3++
